@@ -8,7 +8,20 @@ TRUSTED_BASE = [
     "the correspondence is differential testing: agreement of /repo with the model is sampled, not proved",
 ]
 
+SRV_TB = ["the TCP runner harness/src/srv.rs + resp.rs (independent RESP client), one fresh server process per history (the harness binary in `serve` mode running ferrous::Server::run)",
+          "canonicalisation (identical in srv.rs canon_reply and Model/Server.v canon_reply): errors compared by first word, positive TTL/PTTL by sign, unordered replies sorted",
+          "model clock = logical time advanced only by SLEEP ops; histories whose real time drifts > 80 ms from it are discarded"]
+
 PROPS = {
+    "C01": {
+        "n": {"quick": 250, "thorough": 4000},
+        "diff_is_failure": True,
+        "trivial_outs": {"i1", ""},
+        "rule": "histories of 1-60 commands of the string/key catalogue on a 7-key colliding pool (incl. empty key, binary key), arguments from boundary pools (i64/isize/u64 extremes, non-integers, empty/binary values, option combinations, non-bulk arguments), followed by a dump (TYPE/GET/PTTL of every pool key, KEYS *, DBSIZE); one evaluation = one command's canonical reply compared between the live server and the extracted model; non-trivial = any reply other than the connect acknowledgement; distinct = distinct (command, reply) pairs",
+        "explanation": "theorems about Model/Strings.v (GETRANGE = Redis rule, INCR family checked arithmetic, failure atomicity of every command but MSET/MGET, MGET view-atomicity, well-formedness over all histories, read-after-write and frame lemmas); tie: differential TCP histories; a disagreement outside the known classes is reported as a failing input because the model is the specification there",
+        "trusted_base": SRV_TB,
+        "assumptions": ["single client connection per history (C07/C18 cover several)", "uptime below 2^40 s (ttl_limit_ms)"],
+    },
     "C20": {
         "n": {"quick": 400, "thorough": 6000},
         "judge": True,
